@@ -64,6 +64,11 @@ def gen_hits(base, other, nt):
 
 
 def replay(recipe):
+    if recipe.get('gen') == 'G-det-runsim':
+        solo = sub(dict(kind='runsim', params=recipe['params']), 3)
+        after = sub(dict(kind='runsim', params=recipe['params'], before=recipe['before']), 6)
+        return None, ([] if solo == after else [dict(desc='run_simulator statistics depend on earlier simulations in the process',
+                                                      signature='nondeterminism', recipe=recipe, gen='G-det-runsim')])
     if recipe.get('gen') == 'G-det-gen':
         return None, gen_hits(recipe['params'], recipe['params2'], recipe['nticks'])[0]
     case, run = S.drive(recipe, MASK)
@@ -137,6 +142,30 @@ def run(ctx):
                      multi_operator_containers=False, allow_memory_overcommit=True)
         nt = int(min(12000, max(60, 25 * base['waiting_seconds_mean'] * base['ticks_per_second'])))
         return gen_hits(base, other, nt)
+    # run_simulator itself (real generator, statistics as returned): alone in a fresh process vs. after runs with
+    # OTHER parameters (another tick rate, another scheduler) in the same process
+    def runsim_check(i):
+        rng = ctx.case_rng('G-det-runsim', i)
+        tps = rng.choice([10, 20, 100])
+        base = dict(duration=rng.choice([20, 30, 45]), ticks_per_second=tps, waiting_seconds_mean=rng.choice([1.0, 2.5]),
+                    num_pipelines=rng.choice([2, 4]), num_operators=rng.choice([2, 3]), random_seed=rng.randrange(1000),
+                    scheduler_algo=rng.choice(['priority', 'naive', 'priority-pool']), num_pools=2,
+                    cpus_per_pool=rng.choice([8, 16]), ram_gb_per_pool=rng.choice([32, 64]),
+                    query_prob=0.4, interactive_prob=0.3, batch_prob=0.3)
+        others = [dict(base, ticks_per_second=rng.choice([t for t in (10, 50, 100, 200) if t != tps]), duration=10),
+                  dict(base, scheduler_algo='naive', random_seed=base['random_seed'] + 1, duration=10)]
+        solo = sub(dict(kind='runsim', params=base), 3)
+        after = sub(dict(kind='runsim', params=base, before=others), 6)
+        if solo != after:
+            diff = sorted(k for k in solo if solo.get(k) != after.get(k))
+            return [dict(desc=f'run_simulator with {base} returns different statistics ({", ".join(diff[:4])}) after other '
+                              f'simulations (tick rates {[o["ticks_per_second"] for o in others]}) ran in the same process',
+                         signature='nondeterminism', recipe=dict(gen='G-det-runsim', params=base, before=others), gen='G-det-runsim')]
+        return []
+    with ThreadPoolExecutor(8) as ex:
+        for h in ex.map(runsim_check, range(ctx.budget(6, 60))):
+            hits += h
+            st['run_simulator_history_pairs'] += 1
     with ThreadPoolExecutor(8) as ex:
         for h, na in ex.map(gen_check, range(ngen)):
             hits += h
